@@ -193,12 +193,15 @@ def check_file(case, scratch):
     os.makedirs(d)
     out = []
     try:
-        pbase, _ = snap.write_snapshot_auto(d, etag_from=None, etag_to="E1", payload=base, delta_mode=False)
-        os.utime(pbase, (1000, 1000))
-        if os.path.exists(pbase + ".meta"):
-            os.utime(pbase + ".meta", (1000, 1000))
-        pcur, wrote_delta = snap.write_snapshot_auto(d, etag_from="E1", etag_to="E2", payload=cur, delta_mode=True)
-        os.utime(pcur, (2000, 2000))
+        try:
+            pbase, _ = snap.write_snapshot_auto(d, etag_from=None, etag_to="E1", payload=base, delta_mode=False)
+            os.utime(pbase, (1000, 1000))
+            if os.path.exists(pbase + ".meta"):
+                os.utime(pbase + ".meta", (1000, 1000))
+            pcur, wrote_delta = snap.write_snapshot_auto(d, etag_from="E1", etag_to="E2", payload=cur, delta_mode=True)
+            os.utime(pcur, (2000, 2000))
+        except Exception as e:  # the writer must cope with every JSON payload (baseline is present and intact here)
+            return [("file:writer-raises:%s" % type(e).__name__, "write_snapshot_auto raised %r with an intact baseline" % (e,))]
         if not wrote_delta:
             out.append(("file:writer-no-delta-with-baseline", "delta requested with baseline present, full written"))
         # now perturb the baseline
